@@ -160,6 +160,14 @@ def stepLine (st : St) (line : String) : St × String :=
         (.tri e p ip sp [], s!"{e} {cap} | {p.avail} | {ip.cells} {ip.room} {ip.avail} | {sp.sop.avail}")
       | none => bad
     | none => bad
+  | ["reset", "crit", which] =>
+    -- a request at critical-context level 1 on a heap with one live block at payload offset 8
+    let cfg : Cfg := ⟨64, 0⟩
+    let h1 := (mallocA BASE cfg Heap.init 8).h
+    let op : Op := if which = "m" then .malloc 8 else if which = "f" then .free (some 8) else .realloc (some 8) 100
+    (.idle, match stepCtx 1 BASE cfg h1 op with
+      | none => "abort"
+      | some _ => "returned")
   | ["reset", "mpool"] =>
     (.mpool (slistInit (fun _ => 0) 0) MState.init [], s!"ok {availBoth Pool.init (slistInit (fun _ => 0) 0) 0}")
   | "reset" :: "heap" :: l :: _ =>
